@@ -17,6 +17,7 @@ import (
 	lcontext "github.com/ysugimoto/falco/v2/linter/context"
 	"github.com/ysugimoto/falco/v2/parser"
 	"github.com/ysugimoto/falco/v2/resolver"
+	"github.com/ysugimoto/falco/v2/snippet"
 	"pgregory.net/rapid"
 
 	"verif/canon"
@@ -27,6 +28,7 @@ import (
 // C09 — comments and layout never change what a program means (metamorphic).
 
 type C09Case struct {
+	Snippets bool `json:"snippets,omitempty"` // lifecycle kind: VCL snippets for the recv and deliver macros are configured
 	Kind      string     `json:"kind"` // core | lint | lifecycle
 	Acls      []*ref.Acl `json:"acls,omitempty"`
 	Plain     string     `json:"plain"`
@@ -109,7 +111,7 @@ func vclTokens(src string) []string {
 	return toks
 }
 
-var c09Words = []string{"note", "todo: x", "keep", "a=b", "set req.http.A = \"b\";", "if (x) {", "}", "return(pass)", "100%", "héllo", "; ;", "\"q\"", "restart", "error 500"}
+var c09Words = []string{"@see docs", "@todo tidy up", "@author me", "note", "todo: x", "keep", "a=b", "set req.http.A = \"b\";", "if (x) {", "}", "return(pass)", "100%", "héllo", "; ;", "\"q\"", "restart", "error 500"}
 
 // decorate joins tokens with drawn whitespace and ordinary comments.
 func decorate(t *rapid.T, toks []string) (string, int, []string) {
@@ -141,6 +143,9 @@ func decorate(t *rapid.T, toks []string) (string, int, []string) {
 			b.WriteString(ws)
 			if density > 0 && rapid.IntRange(0, 99).Draw(t, "c") < density {
 				body := fmt.Sprintf("c%d %s", n, rapid.SampledFrom(c09Words).Draw(t, "w"))
+				if i := strings.Index(body, "@"); i > 0 {
+					body = body[i:] // documentation tags stand at the beginning of the comment: `// @see docs`
+				}
 				cform := rapid.IntRange(0, 7).Draw(t, "cform")
 				if trailingDirective && (cform == 0 || cform == 1 || cform == 6 || cform == 7) {
 					cform = 2 // only a one-line block comment keeps the directive on the line
@@ -275,6 +280,13 @@ func genC09(t *rapid.T) any {
 			c.Plain += "# @scope: recv, deliver\nsub c09_mark {\n  log \"mark \" req.restarts;\n}\n" +
 				"sub c09_arg(STRING var.s, INTEGER var.n) {\n  log \"arg \" var.s var.n;\n}\n" +
 				"sub c09_fn(STRING var.s) STRING {\n  return var.s \"!\";\n}\n"
+		}
+		// #FASTLY macros, expanded by the simulator from configured VCL snippets
+		if rapid.Bool().Draw(t, "macros") {
+			c.Snippets = true
+			for _, sc := range []string{"recv", "deliver"} {
+				c.Plain = strings.Replace(c.Plain, "sub vcl_"+sc+" {\n", "sub vcl_"+sc+" {\n#FASTLY "+sc+"\n", 1)
+			}
 		}
 	}
 	c.Decorated, c.NComments, c.Slots = decorate(t, vclTokens(c.Plain))
@@ -422,8 +434,8 @@ func checkC09(raw json.RawMessage) iso.Result {
 			return col.Done()
 		}
 		col.Count("diagnostics", len(la))
-		a := runLifecycle(c.Plain, c.URLs)
-		b := runLifecycle(c.Decorated, c.URLs)
+		a := runLifecycle(c.Plain, c.URLs, c.Snippets)
+		b := runLifecycle(c.Decorated, c.URLs, c.Snippets)
 		if a != b {
 			col.FailKey(c09Key(c, "sim"), "comments/layout changed what the simulator does\n plain:\n%s\n decorated:\n%s\n%s", a, b, show())
 			return col.Done()
@@ -457,9 +469,19 @@ func diagDiff(a, b []lintDiag) string {
 }
 
 // runLifecycle serves the requests and returns a normalised transcript.
-func runLifecycle(vclBody string, urls []string) string {
+func runLifecycle(vclBody string, urls []string, snippets ...bool) string {
 	vcl := backendDecl() + vclBody
-	ip := interpreter.New(icontext.WithResolver(resolver.NewStaticResolver("main", vcl)))
+	opts := []icontext.Option{icontext.WithResolver(resolver.NewStaticResolver("main", vcl))}
+	if len(snippets) > 0 && snippets[0] {
+		opts = append(opts, icontext.WithSnippets(&snippet.Snippets{
+			ScopedSnippets: snippet.ScopedSnippets{
+				"recv":    {{Name: "snip_recv", Priority: 10, Data: "log \"snippet recv\";\nset req.http.X-Snip = \"r\";"}},
+				"deliver": {{Name: "snip_deliver", Priority: 10, Data: "log \"snippet deliver \" req.http.X-Snip;\nset resp.http.X-Snip = \"d\";"}},
+			},
+			IncludeSnippets: snippet.IncludeSnippets{},
+		}))
+	}
+	ip := interpreter.New(opts...)
 	ip.Debugger = &capDebugger{}
 	var out strings.Builder
 	for k, u := range urls {
